@@ -38,6 +38,11 @@ impl Timer {
     /// Attempts to get the CPU timestamp counter.
     #[inline]
     pub fn get_tsc() -> Result<Self, TscUnavailable> {
+        #[cfg(divan_verif)]
+        if let Some(frequency) = crate::__verif::clock::frequency_override() {
+            return Ok(Self::Tsc { frequency });
+        }
+
         Ok(Self::Tsc { frequency: TscTimestamp::frequency()? })
     }
 
@@ -53,12 +58,22 @@ impl Timer {
     ///
     /// The result is cached.
     pub fn precision(self) -> FineDuration {
+        #[cfg(divan_verif)]
+        if let Some(precision) = crate::__verif::clock::precision_override() {
+            return precision;
+        }
+
         static CACHED: [OnceLock<FineDuration>; Timer::COUNT] =
             [OnceLock::new(), OnceLock::new()];
 
         let cached = &CACHED[self.kind() as usize];
 
         *cached.get_or_init(|| self.measure_precision())
+    }
+
+    #[cfg(divan_verif)]
+    pub(crate) fn verif_measure_precision(self) -> FineDuration {
+        self.measure_precision()
     }
 
     fn measure_precision(self) -> FineDuration {
@@ -140,6 +155,11 @@ impl Timer {
     ///
     /// `min_time` and `max_time` do not consider this as benchmarking time.
     pub fn bench_overheads(self) -> &'static TimedOverhead {
+        #[cfg(divan_verif)]
+        if let Some(overheads) = crate::__verif::clock::overheads_override() {
+            return overheads;
+        }
+
         // Miri is slow, so don't waste time on this.
         if cfg!(miri) {
             return &TimedOverhead::ZERO;
